@@ -11,11 +11,11 @@ variable {K : Type} [Field K] [LinearOrder K] [IsStrictOrderedRing K]
 set_option linter.unusedSectionVars false
 
 /-- any two of the points with different coordinates differ by at least `g` in one coordinate -/
-def Gap (data : Nat → K × K) (is : List Nat) (g : K) : Prop :=
-  ∀ a ∈ is, ∀ c ∈ is, data a ≠ data c → g ≤ |(data a).1 - (data c).1| ∨ g ≤ |(data a).2 - (data c).2|
+def Gap (ps : List (K × K)) (g : K) : Prop :=
+  ∀ p ∈ ps, ∀ q ∈ ps, p ≠ q → g ≤ |p.1 - q.1| ∨ g ≤ |p.2 - q.2|
 
-theorem Gap.mono {data : Nat → K × K} {l l' : List Nat} {g : K} (h : Gap data l g) (hs : ∀ x ∈ l', x ∈ l) :
-    Gap data l' g := fun a ha c hc hne => h a (hs a ha) c (hs c hc) hne
+theorem Gap.mono {l l' : List (K × K)} {g : K} (h : Gap l g) (hs : ∀ x ∈ l', x ∈ l) :
+    Gap l' g := fun a ha c hc hne => h a (hs a ha) c (hs c hc) hne
 
 /-- two points with different coordinates cannot share a cell that is smaller than the gap -/
 theorem no_room (b : Cell K) (p q : K × K) (g : K) (hp : b.containsPoint p = true) (hq : b.containsPoint q = true)
@@ -58,13 +58,43 @@ theorem insert_emptyLeaf_isSome (data : Nat → K × K) (fuel : Nat) (c : Cell K
   unfold emptyLeaf
   cases fuel <;> (simp only [insert]; split_ifs <;> simp)
 
-theorem insert_isSome (data : Nat → K × K) (g : K) : ∀ (n fuel : Nat) (t : Tree K) (is : List Nat) (i : Nat),
-    WF data t is → Gap data (i :: is) g → 2 * max t.cell.hw t.cell.hh < g * 2 ^ n → n ≤ fuel →
+/-- handing the resident down needs no fuel beyond what the children need for coincident points (none) -/
+theorem handDown_isSome (data : Nat → K × K) (r : Nat) (ins : Tree K → Option (Tree K × Bool))
+    (hspec : ∀ c l, WF data c l → InsSpec data r ins c l)
+    (hsome : ∀ c l, WF data c l → (∀ p ∈ l, p = data r) → (ins c).isSome) :
+    ∀ (n : Nat) (nw ne sw se : Tree K) (l1 l2 l3 l4 : List (K × K)),
+      WF data nw l1 → WF data ne l2 → WF data sw l3 → WF data se l4 →
+      (∀ p ∈ l1, p = data r) → (∀ p ∈ l2, p = data r) → (∀ p ∈ l3, p = data r) → (∀ p ∈ l4, p = data r) →
+      (handDown ins n (nw, ne, sw, se)).isSome := by
+  intro n
+  induction n with
+  | zero => intro nw ne sw se _ _ _ _ _ _ _ _ _ _ _ _; simp [handDown]
+  | succ n ih =>
+    intro nw ne sw se l1 l2 l3 l4 w1 w2 w3 w4 e1 e2 e3 e4
+    have s1 := tryChildren_isSome ins nw ne sw se (hsome _ _ w1 e1) (hsome _ _ w2 e2) (hsome _ _ w3 e3)
+      (hsome _ _ w4 e4)
+    obtain ⟨⟨⟨a, b, c, d⟩, ok⟩, h1⟩ := Option.isSome_iff_exists.1 s1
+    have T := tryChildren_spec data r ins nw ne sw se l1 l2 l3 l4 w1 w2 w3 w4
+      (hspec _ _ w1) (hspec _ _ w2) (hspec _ _ w3) (hspec _ _ w4) _ h1
+    obtain ⟨a1, a2, a3, a4, -⟩ := T
+    simp only [handDown, h1]
+    have ext : ∀ (l : List (K × K)) (f : K × K → Bool), (∀ p ∈ l, p = data r) →
+        ∀ p ∈ l ++ [data r].filter f, p = data r := by
+      intro l f hl p hp
+      simp only [List.mem_append] at hp
+      rcases hp with hp | hp
+      · exact hl p hp
+      · have := (List.mem_filter.1 hp).1
+        simpa using this
+    exact ih a b c d _ _ _ _ a1 a2 a3 a4 (ext _ _ e1) (ext _ _ e2) (ext _ _ e3) (ext _ _ e4)
+
+theorem insert_isSome (data : Nat → K × K) (g : K) : ∀ (n fuel : Nat) (t : Tree K) (ps : List (K × K)) (i : Nat),
+    WF data t ps → Gap (data i :: ps) g → 2 * max t.cell.hw t.cell.hh < g * 2 ^ n → n ≤ fuel →
     (insert data fuel t i).isSome := by
   intro n
   induction n with
   | zero =>
-    intro fuel t is i hwf hgap hlev _
+    intro fuel t ps i hwf hgap hlev _
     simp only [pow_zero, mul_one] at hlev
     cases t with
     | leaf b cum com res =>
@@ -80,20 +110,21 @@ theorem insert_isSome (data : Nat → K × K) (g : K) : ∀ (n fuel : Nat) (t : 
           · exfalso
             have hne : data i ≠ data r := fun h => hs ((samePoint_iff _ _).2 h)
             simp only [WF] at hwf
-            obtain ⟨dups, rfl, -, -, hall⟩ := hwf
-            have := no_room b (data i) (data r) g hc' (hall r (by simp)).1
-              (hgap i (by simp) r (by simp) hne)
+            obtain ⟨hne0, -, -, hall⟩ := hwf
+            obtain ⟨q, hq⟩ := List.exists_mem_of_ne_nil ps hne0
+            have hqr := (hall q hq).2
+            have := no_room b (data i) (data r) g hc' (hqr ▸ (hall q hq).1)
+              (hgap (data i) (by simp) (data r) (by rw [← hqr]; simp [hq]) hne)
             linarith
     | node b cum com nw ne sw se =>
       exfalso
       simp only [Tree.cell] at hlev
       simp only [WF] at hwf
-      obtain ⟨r, dups, rest, rfl, -, -, hall, -, ⟨j, hj, hjne⟩, -⟩ := hwf
-      have := no_room b (data j) (data r) g (hall j (by simp [hj])) (hall r (by simp))
-        (hgap j (by simp [hj]) r (by simp) hjne)
+      obtain ⟨-, -, hall, ⟨p, hp, q, hq, hpq⟩, -⟩ := hwf
+      have := no_room b p q g (hall p hp) (hall q hq) (hgap p (by simp [hp]) q (by simp [hq]) hpq)
       linarith
   | succ n ih =>
-    intro fuel t is i hwf hgap hlev hfuel
+    intro fuel t ps i hwf hgap hlev hfuel
     obtain ⟨f, rfl⟩ : ∃ f, fuel = f + 1 := ⟨fuel - 1, by omega⟩
     have hf : n ≤ f := by omega
     have hlev' : max t.cell.hw t.cell.hh < g * 2 ^ n := by
@@ -111,32 +142,58 @@ theorem insert_isSome (data : Nat → K × K) (g : K) : ∀ (n fuel : Nat) (t : 
           · simp [insert, hc', hs]
           · have hs' : samePoint (data i) (data r) = false := by simpa using hs
             simp only [WF] at hwf
-            obtain ⟨dups, rfl, -, -, hall⟩ := hwf
+            obtain ⟨hne0, hcum, -, hall⟩ := hwf
             simp only [insert, hc', Bool.true_eq_false, if_false, hs', Bool.false_eq_true]
-            have s1 := tryChildren_isSome (fun c => insert data f c r) _ _ _ _
-              (insert_emptyLeaf_isSome data f (cellNW b) r) (insert_emptyLeaf_isSome data f (cellNE b) r)
-              (insert_emptyLeaf_isSome data f (cellSW b) r) (insert_emptyLeaf_isSome data f (cellSE b) r)
-            obtain ⟨⟨⟨nw, ne, sw, se⟩, ok1⟩, h1⟩ := Option.isSome_iff_exists.1 s1
-            have T1 := tryChildren_spec data r (fun c => insert data f c r) _ _ _ _ [] [] [] []
-              (WF_emptyLeaf data _) (WF_emptyLeaf data _) (WF_emptyLeaf data _) (WF_emptyLeaf data _)
-              (insert_spec data f _ _ r (WF_emptyLeaf data _)) (insert_spec data f _ _ r (WF_emptyLeaf data _))
-              (insert_spec data f _ _ r (WF_emptyLeaf data _)) (insert_spec data f _ _ r (WF_emptyLeaf data _)) _ h1
-            simp only [cell_emptyLeaf, List.nil_append] at T1
-            obtain ⟨a1, a2, a3, a4, c1, c2, c3, c4, -⟩ := T1
-            simp only [h1]
-            have hsub : ∀ (fl : Nat → Bool), ∀ x ∈ i :: [r].filter fl, x ∈ i :: r :: dups := by
-              intro fl x hx
-              simp only [List.mem_cons] at hx ⊢
-              rcases hx with h | h
-              · exact Or.inl h
-              · have := (List.mem_filter.1 h).1
-                simp only [List.mem_singleton] at this
-                exact Or.inr (Or.inl this)
             have lev : ∀ c : Tree K, (c.cell = cellNW b ∨ c.cell = cellNE b ∨ c.cell = cellSW b ∨ c.cell = cellSE b) →
                 2 * max c.cell.hw c.cell.hh < g * 2 ^ n := by
               intro c hcell
               rcases hcell with h | h | h | h <;>
                 (rw [h]; simp only [cellNW, cellNE, cellSW, cellSE]; rw [max_half]; exact hlev')
+            -- the resident goes down: coincident points only, no fuel needed
+            have hsomeR : ∀ (c : Tree K) (l : List (K × K)), WF data c l → (∀ p ∈ l, p = data r) →
+                (insert data f c r).isSome := by
+              intro c l w hl
+              cases c with
+              | leaf cb ccum ccom cres =>
+                by_cases hcc : cb.containsPoint (data r) = false
+                · cases f <;> simp [insert, hcc]
+                · have hcc' : cb.containsPoint (data r) = true := by simpa using hcc
+                  cases cres with
+                  | none => cases f <;> simp [insert, hcc']
+                  | some q =>
+                    simp only [WF] at w
+                    obtain ⟨wne, -, -, wall⟩ := w
+                    obtain ⟨x, hx⟩ := List.exists_mem_of_ne_nil l wne
+                    have : data r = data q := by rw [← hl x hx, (wall x hx).2]
+                    have hsp : samePoint (data r) (data q) = true := (samePoint_iff _ _).2 this
+                    cases f <;> simp [insert, hcc', hsp]
+              | node cb ccum ccom a1 a2 a3 a4 =>
+                exfalso
+                simp only [WF] at w
+                obtain ⟨-, -, -, ⟨p, hp, q, hq, hpq⟩, -⟩ := w
+                exact hpq ((hl p hp).trans (hl q hq).symm)
+            have s1 := handDown_isSome data r (fun c => insert data f c r)
+              (fun c l w => insert_spec data f c l r w) hsomeR cum _ _ _ _ [] [] [] []
+              (WF_emptyLeaf data (cellNW b)) (WF_emptyLeaf data (cellNE b)) (WF_emptyLeaf data (cellSW b))
+              (WF_emptyLeaf data (cellSE b)) (by simp) (by simp) (by simp) (by simp)
+            obtain ⟨⟨nw, ne, sw, se⟩, h1⟩ := Option.isSome_iff_exists.1 s1
+            have T1 := handDown_spec data r (fun c => insert data f c r)
+              (fun c l w => insert_spec data f c l r w) cum
+              _ _ _ _ [] [] [] [] (WF_emptyLeaf data _) (WF_emptyLeaf data _) (WF_emptyLeaf data _)
+              (WF_emptyLeaf data _) _ h1
+            simp only [cell_emptyLeaf, List.nil_append] at T1
+            obtain ⟨a1, a2, a3, a4, c1, c2, c3, c4⟩ := T1
+            simp only [h1]
+            have hsub : ∀ (fl : K × K → Bool), ∀ x ∈ data i :: (List.replicate cum (data r)).filter fl,
+                x ∈ data i :: ps := by
+              intro fl x hx
+              simp only [List.mem_cons] at hx ⊢
+              rcases hx with h | h
+              · exact Or.inl h
+              · have := (List.mem_filter.1 h).1
+                have hx' : x = data r := (List.mem_replicate.1 this).2
+                obtain ⟨q, hq⟩ := List.exists_mem_of_ne_nil ps hne0
+                right; rw [hx', ← (hall q hq).2]; exact hq
             have s2 := tryChildren_isSome (fun c => insert data f c i) nw ne sw se
               (ih f nw _ i a1 (hgap.mono (hsub _)) (lev nw (Or.inl c1)) hf)
               (ih f ne _ i a2 (hgap.mono (hsub _)) (lev ne (Or.inr (Or.inl c2))) hf)
@@ -150,18 +207,14 @@ theorem insert_isSome (data : Nat → K × K) (g : K) : ∀ (n fuel : Nat) (t : 
       · simp [insert, hc]
       · have hc' : b.containsPoint (data i) = true := by simpa using hc
         simp only [WF] at hwf
-        obtain ⟨r, dups, rest, rfl, -, -, -, -, -, e1, e2, e3, e4, w1, w2, w3, w4⟩ := hwf
+        obtain ⟨-, -, -, -, e1, e2, e3, e4, w1, w2, w3, w4⟩ := hwf
         simp only [insert, hc', Bool.true_eq_false, if_false]
-        have hsub : ∀ (fl : Nat → Bool), ∀ x ∈ i :: (r :: rest).filter fl, x ∈ i :: r :: (dups ++ rest) := by
+        have hsub : ∀ (fl : K × K → Bool), ∀ x ∈ data i :: ps.filter fl, x ∈ data i :: ps := by
           intro fl x hx
-          simp only [List.mem_cons] at hx
+          simp only [List.mem_cons] at hx ⊢
           rcases hx with h | h
-          · simp [h]
-          · have := (List.mem_filter.1 h).1
-            simp only [List.mem_cons] at this
-            rcases this with h | h
-            · simp [h]
-            · simp [h]
+          · exact Or.inl h
+          · exact Or.inr (List.mem_filter.1 h).1
         have lev : ∀ c : Tree K, (c.cell = cellNW b ∨ c.cell = cellNE b ∨ c.cell = cellSW b ∨ c.cell = cellSE b) →
             2 * max c.cell.hw c.cell.hh < g * 2 ^ n := by
           intro c hcell
@@ -176,30 +229,31 @@ theorem insert_isSome (data : Nat → K × K) (g : K) : ∀ (n fuel : Nat) (t : 
         simp [h2]
 
 theorem fillList_isSome (data : Nat → K × K) (g : K) (n fuel : Nat) (hn : n ≤ fuel) :
-    ∀ (js : List Nat) (t : Tree K) (is : List Nat), WF data t is → Gap data (is ++ js) g →
+    ∀ (js : List Nat) (t : Tree K) (ps : List (K × K)), WF data t ps → Gap (ps ++ js.map data) g →
       2 * max t.cell.hw t.cell.hh < g * 2 ^ n → (fillList data fuel t js).isSome := by
   intro js
   induction js with
-  | nil => intro t is _ _ _; simp [fillList]
+  | nil => intro t ps _ _ _; simp [fillList]
   | cons j js ih =>
-    intro t is hwf hgap hlev
-    have h1 := insert_isSome data g n fuel t is j hwf (hgap.mono (by
-      intro x hx; simp only [List.mem_cons, List.mem_append] at hx ⊢; tauto)) hlev hn
+    intro t ps hwf hgap hlev
+    have h1 := insert_isSome data g n fuel t ps j hwf (hgap.mono (by
+      intro x hx; simp only [List.mem_cons, List.mem_append, List.map_cons] at hx ⊢; tauto)) hlev hn
     obtain ⟨⟨t1, ok⟩, e1⟩ := Option.isSome_iff_exists.1 h1
     simp only [fillList, e1]
-    have S := insert_spec data fuel t is j hwf _ e1
+    have S := insert_spec data fuel t ps j hwf _ e1
     cases hc : t.cell.containsPoint (data j) with
     | false =>
       have e := S.1 hc
       simp only [Prod.mk.injEq] at e
       obtain ⟨rfl, rfl⟩ := e
-      exact ih _ is hwf (hgap.mono (by
-        intro x hx; simp only [List.mem_cons, List.mem_append] at hx ⊢; tauto)) hlev
+      exact ih _ ps hwf (hgap.mono (by
+        intro x hx; simp only [List.mem_cons, List.mem_append, List.map_cons] at hx ⊢; tauto)) hlev
     | true =>
       obtain ⟨-, hwf1, hcell⟩ := S.2 hc
       simp only at hwf1 hcell
-      exact ih _ (is ++ [j]) hwf1 (hgap.mono (by
-        intro x hx; simp only [List.mem_cons, List.mem_append] at hx ⊢; tauto))
+      exact ih _ (ps ++ [data j]) hwf1 (hgap.mono (by
+        intro x hx
+        simp only [List.mem_cons, List.mem_append, List.map_cons, List.mem_singleton] at hx ⊢; tauto))
         (by rw [hcell]; exact hlev)
 
 /-! ### more fuel never changes a result -/
@@ -242,6 +296,23 @@ theorem tryChildren_mono (ins ins' : Tree K → Option (Tree K × Bool))
                 rw [h _ _ h4]
                 simpa [h4] using hx
 
+theorem handDown_mono (ins ins' : Tree K → Option (Tree K × Bool))
+    (h : ∀ c r, ins c = some r → ins' c = some r) : ∀ (n : Nat) (kids x : Tree K × Tree K × Tree K × Tree K),
+    handDown ins n kids = some x → handDown ins' n kids = some x := by
+  intro n
+  induction n with
+  | zero => intro kids x hx; simpa [handDown] using hx
+  | succ n ih =>
+    intro kids x hx
+    obtain ⟨nw, ne, sw, se⟩ := kids
+    simp only [handDown] at hx ⊢
+    cases h1 : tryChildren ins nw ne sw se with
+    | none => simp [h1] at hx
+    | some k =>
+      rw [tryChildren_mono ins ins' h _ _ _ _ _ h1]
+      simp only [h1] at hx
+      exact ih _ _ hx
+
 theorem insert_mono (data : Nat → K × K) : ∀ (fuel : Nat) (t : Tree K) (i : Nat) (r : Tree K × Bool),
     insert data fuel t i = some r → insert data (fuel + 1) t i = some r := by
   intro fuel
@@ -279,12 +350,12 @@ theorem insert_mono (data : Nat → K × K) : ∀ (fuel : Nat) (t : Tree K) (i :
           · simpa [insert, hc', hs] using h
           · have hs' : samePoint (data i) (data q) = false := by simpa using hs
             simp only [insert, hc', Bool.true_eq_false, if_false, hs', Bool.false_eq_true] at h ⊢
-            cases h1 : tryChildren (fun c => insert data f c q) (emptyLeaf (cellNW b)) (emptyLeaf (cellNE b))
-                (emptyLeaf (cellSW b)) (emptyLeaf (cellSE b)) with
+            cases h1 : handDown (fun c => insert data f c q) cum
+                (emptyLeaf (cellNW b), emptyLeaf (cellNE b), emptyLeaf (cellSW b), emptyLeaf (cellSE b)) with
             | none => simp [h1] at h
             | some k1 =>
-              rw [tryChildren_mono _ (fun c => insert data (f + 1) c q) (fun c r hr => ih c q r hr) _ _ _ _ _ h1]
-              obtain ⟨⟨nw, ne, sw, se⟩, ok1⟩ := k1
+              rw [handDown_mono _ (fun c => insert data (f + 1) c q) (fun c r hr => ih c q r hr) _ _ _ h1]
+              obtain ⟨nw, ne, sw, se⟩ := k1
               simp only [h1] at h ⊢
               cases h2 : tryChildren (fun c => insert data f c i) nw ne sw se with
               | none => simp [h2] at h
